@@ -480,3 +480,183 @@ pub fn run_one<P: Pay + Send + Sync>(seed: u64, nops: usize, light: bool, st: &m
     let _ = shadow::take_findings();
     out
 }
+
+// ---------------------------------------------------------------------------------------------
+// str payloads: Arc<str>, Arc<HeaderSlice<(), str>>, Arc<HeaderSlice<u32, str>>, raw *const str.
+// No identity can be attached to a str, so the oracles are contents, addresses, counts and the
+// allocator's view (block live while owned, returned exactly when the last owner goes).
+
+enum HS {
+    S(Arc<str>),
+    E(Arc<HeaderSlice<(), str>>),
+    H(Arc<HeaderSlice<u32, str>>),
+    Raw(*const str),
+}
+
+impl HS {
+    fn kind(&self) -> &'static str {
+        match self {
+            HS::S(_) => "str",
+            HS::E(_) => "hstr",
+            HS::H(_) => "hdrstr",
+            HS::Raw(_) => "rawstr",
+        }
+    }
+    fn text(&self) -> &str {
+        match self {
+            HS::S(a) => a,
+            HS::E(a) => &a.slice,
+            HS::H(a) => &a.slice,
+            HS::Raw(p) => unsafe { &**p },
+        }
+    }
+    fn count(&self) -> Option<usize> {
+        match self {
+            HS::S(a) => Some(Arc::count(a)),
+            HS::E(a) => Some(Arc::count(a)),
+            HS::H(a) => Some(Arc::strong_count(a)),
+            HS::Raw(_) => None,
+        }
+    }
+    fn heap(&self) -> Option<usize> {
+        match self {
+            HS::S(a) => Some(a.heap_ptr() as usize),
+            HS::E(a) => Some(a.heap_ptr() as usize),
+            HS::H(a) => Some(a.heap_ptr() as usize),
+            HS::Raw(_) => None,
+        }
+    }
+}
+
+pub fn run_str(seed: u64, nops: usize, st: &mut Stats) -> Result<(), (Vec<Viol>, Vec<String>)> {
+    shadow::reset();
+    let mut rng = Rng::new(seed ^ 0x57e);
+    let mut slots: Vec<Option<(HS, usize)>> = (0..8).map(|_| None).collect();
+    let mut allocs: Vec<(String, usize, bool)> = Vec::new(); // text, block, live
+    let mut trace: Vec<String> = Vec::new();
+    let mut soft: Vec<Viol> = Vec::new();
+    let texts = ["", "a", "héllo", "日本語テキスト", "plain ascii text of some length", "😀😀"];
+    let mut body = || -> R {
+        for step in 0..nops + 40 {
+            set_op("C01|str-world operation");
+            let closing = step >= nops;
+            let used: Vec<usize> = (0..slots.len()).filter(|i| slots[*i].is_some()).collect();
+            let free: Vec<usize> = (0..slots.len()).filter(|i| slots[*i].is_none()).collect();
+            if closing && used.is_empty() {
+                break;
+            }
+            let roll = if closing { 70 } else { rng.below(100) };
+            if !closing && (used.is_empty() || (roll < 15 && !free.is_empty())) {
+                let t = texts[rng.below(texts.len())];
+                let r = rng.below(4);
+                let h = shadow::tracked(|| match r {
+                    0 => HS::S(Arc::from(t)),
+                    1 => HS::S(Arc::from(String::from(t))),
+                    2 => HS::S(Arc::from_header_and_str((), t).into()),
+                    _ => HS::H(Arc::from_header_and_str(7u32, t)),
+                });
+                let block = h.heap().unwrap();
+                ensure!(!shadow::active() || shadow::live_layout(block).is_some(), "C01,C11", "live", "heap_ptr of a new str allocation is not a live block");
+                allocs.push((t.to_string(), block, true));
+                let s = free[rng.below(free.len())];
+                trace.push(format!("s{} = str ctor {}", s, r));
+                slots[s] = Some((h, allocs.len() - 1));
+                st.counts.bump("slices.str.create");
+            } else {
+                let i = used[rng.below(used.len())];
+                let a = slots[i].as_ref().unwrap().1;
+                let owners = slots.iter().flatten().filter(|s| s.1 == a).count();
+                if roll < 35 && !free.is_empty() {
+                    let h = shadow::tracked(|| match &slots[i].as_ref().unwrap().0 {
+                        HS::S(x) => HS::S(x.clone()),
+                        HS::E(x) => HS::E(x.clone()),
+                        HS::H(x) => HS::H(x.clone()),
+                        HS::Raw(p) => {
+                            let t = std::mem::ManuallyDrop::new(unsafe { Arc::from_raw(*p) });
+                            HS::S((*t).clone())
+                        }
+                    });
+                    let s = free[rng.below(free.len())];
+                    trace.push(format!("s{} = s{}.clone", s, i));
+                    slots[s] = Some((h, a));
+                    st.counts.bump("slices.str.clone");
+                } else if roll < 65 {
+                    let (h, _) = slots[i].take().unwrap();
+                    let h = shadow::tracked(|| match h {
+                        HS::S(x) => {
+                            if rng.below(2) == 0 {
+                                HS::E(x.into())
+                            } else {
+                                HS::Raw(Arc::into_raw(x))
+                            }
+                        }
+                        HS::E(x) => HS::S(x.into()),
+                        HS::H(x) => HS::H(x),
+                        HS::Raw(p) => HS::S(unsafe { Arc::from_raw(p) }),
+                    });
+                    trace.push(format!("s{} -> {}", i, h.kind()));
+                    slots[i] = Some((h, a));
+                    st.counts.bump("slices.str.convert");
+                } else {
+                    let (h, _) = slots[i].take().unwrap();
+                    trace.push(format!("drop s{} ({})", i, h.kind()));
+                    shadow::tracked(|| match h {
+                        HS::Raw(p) => drop(unsafe { Arc::<str>::from_raw(p) }),
+                        other => drop(other),
+                    });
+                    if owners == 1 {
+                        allocs[a].2 = false;
+                        if shadow::active() {
+                            ensure!(shadow::live_layout(allocs[a].1).is_none(), "C01", "live", "str block not returned when its last owner was released");
+                        }
+                    }
+                    st.counts.bump("slices.str.drop");
+                }
+            }
+            // compare everything observable with the model
+            for s in slots.iter().flatten() {
+                let (h, a) = s;
+                let owners = slots.iter().flatten().filter(|x| x.1 == *a).count();
+                ensure!(h.text() == allocs[*a].0, "C01,C06", "live", "{} handle reads {:?}, the allocation holds {:?}", h.kind(), h.text(), allocs[*a].0);
+                if let Some(c) = h.count() {
+                    if c != owners {
+                        soft_push(&mut soft, "C04", "count", format!("{} handle reports count {} with {} owners", h.kind(), c, owners));
+                    }
+                }
+                if let Some(b) = h.heap() {
+                    ensure!(b == allocs[*a].1, "C11,C01", "live", "{} handle's heap_ptr moved", h.kind());
+                }
+            }
+            if shadow::active() {
+                for (_, block, live) in &allocs {
+                    if *live {
+                        ensure!(shadow::live_layout(*block).is_some(), "C01", "live", "block of a live str allocation was returned");
+                    }
+                }
+                if let Some(x) = shadow::take_findings().first() {
+                    let props = if x.kind == "dealloc-layout-mismatch" { "C05,C01" } else { "C01" };
+                    return viol(props, "alloc", format!("allocator monitor: {:?}", x));
+                }
+            }
+        }
+        if shadow::active() {
+            shadow::flush_quarantine();
+            let lb = shadow::live_blocks();
+            ensure!(lb.is_empty(), "C01", "live", "{} str blocks never returned", lb.len());
+        }
+        Ok(())
+    };
+    let res = body();
+    st.counts.bump("slices.str.histories");
+    match res {
+        Ok(()) if soft.is_empty() => Ok(()),
+        Ok(()) => Err((soft, trace)),
+        Err(v) => {
+            for s in slots.drain(..) {
+                std::mem::forget(s);
+            }
+            soft.push(v);
+            Err((soft, trace))
+        }
+    }
+}
